@@ -157,7 +157,7 @@ def new_vis():
 # module trees
 
 
-def gen_tree(rng, max_depth=3, budget=None, same_basename_p=0.06):
+def gen_tree(rng, max_depth=3, budget=None, same_basename_p=0.06, wide=0):
     """A module tree. Node: {"path": [dotted components] (relative to the importer's directory),
     "items": [decl | {"kind": "mod", "node": child}], "file": relative file path from the root dir}.
 
@@ -191,6 +191,16 @@ def gen_tree(rng, max_depth=3, budget=None, same_basename_p=0.06):
             child = build(depth + 1, os.path.dirname(rel), rel)
             child["path"] = comps
             children.append(child)
+        if depth == 1 and wide:
+            # a schema split into MANY small modules (more files than any fixed import budget would foresee)
+            for wi in range(wide):
+                comps = ([rng.choice(MODWORDS)] if wi % 3 == 0 else []) + [f"{rng.choice(MODWORDS)}{wi}"]
+                rel = os.path.normpath(os.path.join(dirpath, *comps)) + ".fcp"
+                used_files.add(rel)
+                leaf_vis = new_vis()
+                leaf_items = gen_decls(rng, names, leaf_vis, 1, allow=())
+                child = {"path": comps, "file": rel, "items": leaf_items, "exports": leaf_vis}
+                children.append(child)
         # interleave: declarations, then a mod, then declarations that may use what the mod brought in
         pos = sorted(rng.randint(0, n_items) for _ in children)
         made = 0
@@ -268,7 +278,11 @@ def node_source(n, style=0):
     decls = []
     for it in n["items"]:
         if it["kind"] == "mod":
-            decls.append({"kind": "mod", "path": it["node"]["path"]})
+            # spelling of the dotted path (white space / line break / comment between its tokens): a fixed function of
+            # the module's file name, so that no PRNG draw is spent on it
+            rel = it["node"]["file"]
+            sp = (len(rel) * 7 + sum(ord(c) for c in rel)) % 8
+            decls.append({"kind": "mod", "path": it["node"]["path"], "spelling": {5: 1, 6: 2, 7: 3}.get(sp, 0)})
         else:
             decls.append(it)
     return S.render(decls, style)
